@@ -14,6 +14,7 @@ from .lie_common import lib_call
 PI = np.pi
 SHARDS = {"quick": 16, "thorough": 16}
 TIMEOUT = {"quick": 1500, "thorough": 8 * 3600}
+REQUIRED_REACH = ['derive_model', 'derive_control_allocation', 'derive_position_control', 'derive_outerloop_control', 'derive_attitude_rate_control']
 RULE = ("each case = one 30 s closed-loop trajectory: plant = the shipped quadrotor model (default parameters) integrated with RK4 at "
         "1 ms, controllers = the shipped CasADi functions at 100 Hz wired and tuned as in scripts/rdd2_sim.py (k_p_att=(5,5,2), rate PID "
         "(0.3,0.3,0.05)/(0.1,0.1,0), f_cut 10, F_max 20, trim m g), both cascades (position controller + attitude controller; SE_2(3) "
